@@ -147,7 +147,7 @@ PROPS = {
         "assumptions": COMMON_ASSUMPTIONS + ["'would exceed the cap' is judged with the allocator's own per-operation deltas measured on an unlimited twin (the accounting itself is C12's subject)"],
     },
     "C14": {
-        "variants": {"quick": ["rel", "dbg"], "thorough": ["rel", "dbg", "miri"]},
+        "variants": {"quick": ["rel", "dbg"], "thorough": ["rel", "dbg"]},
         "budget_s": (25, 300),
         "exhaustive_key": "exhaustive_byte_strings",
         "min_nontrivial": {"quick": 2000, "thorough": 20000},
@@ -170,7 +170,7 @@ PROPS = {
         "assumptions": COMMON_ASSUMPTIONS + ["an Allocator cannot hold atoms >= 4 GiB; that part of the quantifier is only reached at the write_atom level"],
     },
     "C16": {
-        "variants": {"quick": ["rel", "asan"], "thorough": ["rel", "asan", "miri"]},
+        "variants": {"quick": ["rel", "asan"], "thorough": ["rel", "asan"]},
         "budget_s": (40, 320),
         "total": True,
         "exhaustive_key": "exhaustive_all_bytes",
@@ -183,7 +183,7 @@ PROPS = {
         "assumptions": COMMON_ASSUMPTIONS,
     },
     "C17": {
-        "variants": {"quick": ["rel"], "thorough": ["rel", "miri"]},
+        "variants": {"quick": ["rel"], "thorough": ["rel"]},
         "budget_s": (30, 300),
         "min_nontrivial": {"quick": 2000, "thorough": 20000},
         "must_observe": ["salted_serializations", "bytes_saved_by_backrefs"],
@@ -193,7 +193,7 @@ PROPS = {
         "assumptions": COMMON_ASSUMPTIONS + ["salt override hook pins RandomState/TreeCache salts"],
     },
     "C18": {
-        "variants": {"quick": ["rel", "dbg", "asan"], "thorough": ["rel", "dbg", "asan", "miri"]},
+        "variants": {"quick": ["rel", "dbg", "asan"], "thorough": ["rel", "dbg", "asan"]},
         "budget_s": (40, 320),
         "total": True,
         "min_nontrivial": {"quick": 5000, "thorough": 50000},
@@ -264,7 +264,7 @@ PROPS = {
         "assumptions": COMMON_ASSUMPTIONS + ["API preconditions respected: undo states used in LIFO order, no add after completion"],
     },
     "C20": {
-        "variants": {"quick": ["rel", "asan"], "thorough": ["rel", "asan", "miri"]},
+        "variants": {"quick": ["rel", "asan"], "thorough": ["rel", "asan"]},
         "budget_s": (30, 300),
         "total": True,
         "min_nontrivial": {"quick": 2000, "thorough": 20000},
@@ -275,7 +275,7 @@ PROPS = {
         "assumptions": COMMON_ASSUMPTIONS + ["max_atom_len values beyond 16 MiB are a caller contract and not exercised"],
     },
     "C21": {
-        "variants": {"quick": ["rel"], "thorough": ["rel", "miri"]},
+        "variants": {"quick": ["rel"], "thorough": ["rel"]},
         "budget_s": (25, 300),
         "exhaustive_key": "exhaustive_encodings",
         "min_nontrivial": {"quick": 100000, "thorough": 1000000},
@@ -305,7 +305,7 @@ PROPS = {
         "assumptions": COMMON_ASSUMPTIONS + ["the ChiaLisp program is the one in tools/src/bin/sha256tree-benching.rs"],
     },
     "C24": {
-        "variants": {"quick": ["rel"], "thorough": ["rel", "miri"]},
+        "variants": {"quick": ["rel"], "thorough": ["rel"]},
         "budget_s": (25, 300),
         "min_nontrivial": {"quick": 2000, "thorough": 20000},
         "rule": "Trees/DAGs with heavy structural sharing, unshared deep copies placed next to the original (equal sub-trees that are different nodes), equal atoms stored as separate nodes in different representations (inline, forced heap, view, concat): intern_tree must "
@@ -313,14 +313,14 @@ PROPS = {
         "assumptions": COMMON_ASSUMPTIONS,
     },
     "C25": {
-        "variants": {"quick": ["rel", "dbg", "asan"], "thorough": ["rel", "dbg", "asan", "miri"]},
+        "variants": {"quick": ["rel", "dbg", "asan"], "thorough": ["rel", "dbg", "asan"]},
         "budget_s": (25, 300),
         "total": True,
         "min_nontrivial": {"quick": 5000, "thorough": 50000},
         "must_observe": ["directed_softfork_argument_cases", "directed_deep_recursion_cases"],
         "rule": "Untyped random trees as programs, typed programs mutated 1-3 times, typed programs with big atoms, x random flag sets x budgets {0,1,10,1e4,1.1e7,1.1e10}; hostile spellings of the softfork cost/extension arguments under every strictness flag; non-tail recursion 1000-20000 levels deep with and without ENABLE_GC at budgets that end the run at various depths; plus every ChiaDialect operator called "
                 "directly on signature-aware, perturbed and completely arbitrary argument trees (sizes up to MBs). Oracle: catch_unwind + no EvalErr::InternalError; the same workload runs in release, "
-                "debug-assertion/overflow-check and AddressSanitizer builds (a dying shard process is a violation) and, thorough tier, a small no-BLS subset under Miri. Non-trivial: run got past the first path lookup / operator was reached.",
+                "debug-assertion/overflow-check and AddressSanitizer builds (a dying shard process is a violation). Non-trivial: run got past the first path lookup / operator was reached.",
         "assumptions": COMMON_ASSUMPTIONS + ["hangs are reported as inconclusive (watchdog), never as violations"],
     },
     "C30": {
